@@ -430,8 +430,16 @@ class _Inliner:
             out = []
             for s in stmts:
                 if isinstance(s, ast.Expr) and isinstance(s.value, ast.Yield):
-                    out.append(ast.copy_location(ast.Assign([copy.deepcopy(st.target)], s.value.value or ast.Constant(None), lineno=s.lineno), s))
-                    out += copy.deepcopy(st.body)
+                    yv = s.value.value or ast.Constant(None)
+                    rebinds = isinstance(st.target, ast.Name) and any(
+                        isinstance(n, ast.Name) and n.id == st.target.id and not isinstance(n.ctx, ast.Load)
+                        for b in st.body for n in ast.walk(b))
+                    if isinstance(st.target, ast.Name) and _simple_arg(yv) and not rebinds:
+                        # the loop variable simply *is* the yielded name
+                        out += [_Rename({st.target.id: yv}, {}).visit(copy.deepcopy(b)) for b in st.body]
+                    else:
+                        out.append(ast.copy_location(ast.Assign([copy.deepcopy(st.target)], yv, lineno=s.lineno), s))
+                        out += copy.deepcopy(st.body)
                     continue
                 if any(isinstance(n, ast.Yield) for n in ast.walk(s)):
                     if isinstance(s, (ast.For, ast.While, ast.If, ast.With, ast.Try)):
